@@ -3,7 +3,7 @@
     requests were built through the public constructors, and F4Jumble outputs are >= 48 bytes. *)
 From V.Lib Require Import Base Hex.
 From V.Gen Require Import C11Consts.
-From V.C11 Require Import Model Spec Corr.
+From V.C11 Require Import Model Spec Tab Eqb Legacy CorrLegacy Gap CorrGap Corr.
 Local Open Scope N_scope.
 
 Definition okb (n : N) (b : bytes) : bool := is_bytes b && (blen b =? n).
@@ -38,9 +38,29 @@ Definition wf_dinput (i : dinput) : bool :=
                     && match raw with Some b => is_bytes b && (48 <=? length b)%nat | None => true end
   end.
 
+Definition gtab_ok (t : otab) : bool :=
+  forallb (fun e => match e with
+                    | (f, k, i, r) => (1 <=? f) && (f <=? 22) && is_bytes k && (i <? DIVERSIFIER_SPACE)
+                                      && match r with OSome b => is_bytes b | _ => true end
+                    end) t.
+Definition gwf (c : gcase) : bool :=
+  match c with
+  | GLimit e i p s _ => (e <? 4294967296) && (i <? 4294967296) && (p <? 4294967296) && (s <=? NON_HARDENED_MAX)
+  | GList t k f scope r s e _ _ =>
+      gtab_ok t && wf_uivk k && match f with Some fk => wf_ufvk fk | None => true end
+      && (scope <=? NON_HARDENED_MAX) && wf_request r && (s <=? NON_HARDENED_MAX) && (e <=? NON_HARDENED_MAX)
+  | GGen t g k f scope r _ find _ _ =>
+      gtab_ok t && wf_uivk k && match f with Some fk => wf_ufvk fk | None => true end
+      && (scope <=? NON_HARDENED_MAX) && wf_request r
+      && (gl_external g <? 4294967296) && (gl_internal g <? 4294967296) && (gl_ephemeral g <? 4294967296)
+      && match find with Ok (Some gs) => gs <=? NON_HARDENED_MAX | _ => true end
+  end.
+
 Definition wf_case (c : case) : bool :=
   match c with
   | CIntersect _ _ _ | CReqsNew _ _ _ _ | CReqsUnsafeNew _ _ _ _ | CCrypto _ _ => true
+  | CLegacy l => lwf l
+  | CGap g => gwf g
   | CReqsIntersect a b _ => shielded_possible a && shielded_possible b
   | CRecvReq k r _ => wf_uivk k && wf_request r
   | CUskToUfvk t k _ => wf_tab t && wf_usk k
